@@ -81,8 +81,8 @@ Section Expand.
     nlookup x (cs_names (cget st cd)) = Some i /\ nlookup (star x) (cs_names (cget st cd)) = Some j /\
     klookup (KDom x l) (cs_canon (cget st cd)) = Some i /\ klookup (KDom (star x) l) (cs_canon (cget st cd)) = Some j.
 
-  Lemma obj_len_dobj st i x l : hget (heap st) i = Some (dobj x l) -> (0 <= l)%Z -> obj_len (heap st) i = Ok l.
-  Proof. intros H Hl. unfold obj_len. rewrite H. cbn. destruct (Z.ltb_spec l 0); [lia | reflexivity]. Qed.
+  Lemma obj_len_dobj st i x l : hget (heap st) i = Some (dobj x l) -> (0 <= l)%Z -> obj_length (heap st) i = Ok l.
+  Proof. intros H Hl. unfold obj_length. rewrite H. reflexivity. Qed.
 
   (* cls(x*, length = l) when the pair exists *)
   Lemma dom_found_starred f st x l i j :
@@ -95,7 +95,6 @@ Section Expand.
     rewrite star_nonempty. cbn [negb]. unfold dom_nested. rewrite star_starred. unfold star at 1. rewrite (cname_star x).
     assert (Efin : dom_finish ct cd st (is_none (@Some pstr (star x))) (star x) (Some l) = (st, CRet j false)).
     { unfold dom_finish. cbn [option_map]. unfold sing_lookup. rewrite star_nonempty, Nj, Kj, Nat.eqb_refl. reflexivity. }
-    destruct (Z.eqb l 0) eqn:El; [exact Efin|].
     rewrite (dom_lookup_unstarred ct cd ci Hci f st x Hs Hne), Ni, (obj_len_dobj st i x l Hi Hl), Z.eqb_refl.
     rewrite (collect_id ct _ OK). exact Efin.
   Qed.
@@ -111,7 +110,6 @@ Section Expand.
     rewrite Hne. cbn [negb]. unfold dom_nested. rewrite Hs.
     assert (Efin : dom_finish ct cd st (is_none (Some x)) x (Some l) = (st, CRet i false)).
     { unfold dom_finish. cbn [option_map]. unfold sing_lookup. rewrite Hne, Ni, Ki, Nat.eqb_refl. reflexivity. }
-    destruct (Z.eqb l 0) eqn:El; [exact Efin|].
     rewrite (cname_unstarred' x Hs).
     assert (E1 : dom_call (S (S f)) ct cd st (@Some pstr (star x)) None None None = (st, CRet j false)).
     { unfold star. rewrite <- (collect_id ct _ OK) in Nj, Kj.
